@@ -1,6 +1,6 @@
 ------------------------------- MODULE MC_C10 -------------------------------
 EXTENDS OpUnary, OpElementwise, Json, TLC
-CONSTANTS Fams, MaxRank, MaxExt
+CONSTANTS Fams, MaxRank, MaxExt, LongSizes
 VARIABLES st
 P(c) == PrintT(<<"CASE", ToJson(c)>>)
 Tag(a) == IF a.must = "error" THEN "invalid" ELSE a.must
@@ -54,7 +54,21 @@ TableFull(fn) ==
       /\ P(CaseRec("table", fn, <<T(dt, <<2>>, <<NaN, Fin(0)>>)>>, MustValue(<<T(dt, <<2>>, <<NaN, OrdOrNaN(Lookup(fn, 0))>>)>>),
                    "ulp:" \o ToString(Ulp(fn)), <<"value", dt, "nan_input">>, <<>>))
 
+\* long tensors (an element count that is no multiple of a block size): every element is computed, the last ones too
+LongCases(n) ==
+   /\ \A dt \in {"f32", "i32"} : LET X == CatT(dt, <<n>>, 3) s == SemAbs(X) IN P(CaseRec("long", "Abs", <<LowerT(X)>>, LowerA(s), "bits", <<Tag(s), dt, "long">>, <<>>))
+   /\ LET X == CatT("f32", <<n>>, 1) s == SemRelu(X) IN P(CaseRec("long", "Relu", <<LowerT(X)>>, LowerA(s), "num", <<Tag(s), "f32", "long">>, <<>>))
+   /\ LET X == T("bool", <<n>>, [k \in 1..n |-> (k * k) % 3 = 1]) s == SemNot(X) IN P(CaseRec("long", "Not", <<X>>, s, "num", <<Tag(s), "long">>, <<>>))
+   /\ \A dt \in {"f32", "i64"} : \A b \in {<<1>>, <<n>>} :
+         LET X == T(dt, <<n>>, [k \in 1..n |-> Fin(((k * 7) % 23) - 11)])
+             S == T(dt, b, [k \in 1..Size(b) |-> IF k % 3 = 0 THEN Fin(3) ELSE Fin(-2)])
+             s == SemPRelu(X, S)
+         IN P(CaseRec("long", "PRelu", <<LowerT(X), LowerT(S)>>, LowerA(s), "num", <<Tag(s), dt, "long">>, <<>>))
+   /\ \A fn \in RefFns : P(CaseRec("long", fn, <<GridX(fn, "f32", <<n>>, 0)>>, MustValue(<<GridY(fn, "f32", <<n>>, 0)>>),
+                                  "ulp:" \o ToString(UlpOf(fn, 0, GridLen(fn))), <<"value", "f32", "long">>, <<>>))
+
 Init ==
+   \/ ("long" \in Fams /\ st \in [fam : {"long"}, n : LongSizes, done : {FALSE}])
    \/ ("exact" \in Fams /\ st \in [fam : {"exact"}, shape : Shapes, done : {FALSE}])
    \/ ("prelu" \in Fams /\ st \in [fam : {"prelu"}, a : ShapesOf(0..3, 1..2), b : ShapesOf(0..3, 1..2), done : {FALSE}])
    \/ ("table" \in Fams /\ st \in [fam : {"table"}, fn : RefFns, shape : ShapesOf(0..MaxRank, 2..MaxExt) \cup {<<>>, <<1>>, <<1, 1>>}, done : {FALSE}])
@@ -62,6 +76,7 @@ Init ==
 Emit ==
    /\ ~st.done
    /\ CASE st.fam = "exact" -> ExactCases(st.shape)
+        [] st.fam = "long" -> LongCases(st.n)
         [] st.fam = "prelu" -> PReluCases(st.a, st.b) /\ (st.a = <<>> /\ st.b = <<>> => \A dt \in FloatTypes, off \in 0..13 : PReluSpecial(dt, off))
         [] st.fam = "table" -> TableCases(st.fn, st.shape)
         [] st.fam = "tablefull" -> TableFull(st.fn)
